@@ -410,8 +410,12 @@ impl VirtualSign<'_> {
         if !self.pending_data.is_empty() {
             let data = mem::take(&mut self.pending_data);
             if self.width > 0 && self.height > 0 {
-                let page = Page::from_bytes(self.width, self.height, data).expect("Error loading page");
-                self.pages.push(page);
+                // A transfer with a lost, short or extra chunk yields a buffer of the wrong size; drop it
+                // rather than crash so that only complete pages are ever stored.
+                match Page::from_bytes(self.width, self.height, data) {
+                    Ok(page) => self.pages.push(page),
+                    Err(e) => warn!("Vsign {:04X} discarding malformed page data: {}", self.address.0, e),
+                }
             }
         }
     }
